@@ -33,6 +33,7 @@ struct Ctx {
     events: Vec<Value>,
     taken: Vec<(u64, String, i64, String)>,
     max_snaps: usize,
+    always: Vec<String>,
 }
 
 thread_local! {
@@ -143,7 +144,7 @@ fn on_event(name: &str, detail: String, sync_path: Option<&Path>, truncated: Opt
             }
         }
         ctx.events.push(json!([n, name, ctx.cur_op, detail]));
-        if n % ctx.stride == 0 && ctx.taken.len() < ctx.max_snaps {
+        if (n % ctx.stride == 0 || ctx.always.iter().any(|a| a == name)) && ctx.taken.len() < ctx.max_snaps {
             for m in ctx.models.clone() {
                 let dst = ctx.snaps.join(format!("{}-{}", m, n));
                 if m == "kill" {
@@ -383,6 +384,7 @@ pub fn run(args: &Args) {
                 events: vec![],
                 taken: vec![],
                 max_snaps: case["max_snaps"].as_u64().unwrap_or(4000) as usize,
+                always: case["always"].as_array().map(|a| a.iter().filter_map(|x| x.as_str().map(|s| s.to_string())).collect()).unwrap_or_default(),
             })
         });
         let mut work_res = vec![];
